@@ -6,14 +6,31 @@ import glob, json, os
 V = os.path.dirname(os.path.dirname(os.path.abspath(__file__)))
 
 
+def latest():
+    last = {}
+    p = os.path.join(V, "run", "mutants", "RESULTS.jsonl")
+    if os.path.exists(p):
+        for l in open(p):
+            d = json.loads(l)
+            last[(d["prop"], d["mutant"])] = d
+    return last
+
+
 def seeded():
     rows = []
+    last = latest()
     for m in sorted(glob.glob(os.path.join(V, "seeded", "*", "meta.json"))):
         d = json.load(open(m))
         res = []
         for pid, c in sorted(d.get("checks", {}).items()):
             res.append("%s: %s%s" % (pid, c["result"], (" (" + ", ".join(c["keys"][:2]) + ")") if c.get("keys") else ""))
         later = d.get("after_strengthening")
+        if not later:
+            again = ["%s: %s%s" % (p_, r["result"], (" (" + ", ".join(r["keys"][:2]) + ")") if r.get("keys") else "")
+                     for (p_, m_), r in sorted(last.items()) if m_ == d["id"]]
+            later = "; ".join(again)
+        if d.get("judgement"):
+            later = (later + " — " if later else "") + d["judgement"]
         rows.append((d["id"], d["property"], d.get("needs", ""), "; ".join(res) or "-", later or ""))
     print("| seeded change | property | needs | first run of the checks | after strengthening |")
     print("|---|---|---|---|---|")
@@ -22,12 +39,7 @@ def seeded():
 
 
 def mutants():
-    last = {}
-    p = os.path.join(V, "run", "mutants", "RESULTS.jsonl")
-    if os.path.exists(p):
-        for l in open(p):
-            d = json.loads(l)
-            last[(d["prop"], d["mutant"])] = d
+    last = {k: v for k, v in latest().items() if k[1].endswith(".diff")}
     print()
     print("| property | builder's mutant | result | keys |")
     print("|---|---|---|---|")
